@@ -66,6 +66,8 @@ def handleL3 (req ans : String) : Verdict :=
     match pctDecode e with
     | none => bad
     | some src =>
+      if ans == "ABORT" then
+        { model := (asmVerdict src ans).1, specOk := false, spec := "the assembler terminates with a result or a diagnostic (no abort)", nontrivial := true } else
       let (m, ok) := asmVerdict src ans
       -- the driver reports a model disagreement iff `model != ans`: give back `ans` itself when the
       -- comparison rule accepts it
